@@ -199,3 +199,10 @@ Theorem alg_same_record_iff_same_label :
     let both := filter (fun r => covx (cov2 x y) (rec_seg r) && pair_is a b r) out0 in
     (length both <= 1)%nat /\ (both <> [] <-> (lx = ly /\ lx <> None)).
 Proof. exact alg_same_record_iff_same_label_lemma. Qed.
+
+(* every record of the algorithm model (with or without filters) is a NON-EMPTY interval inside
+   [0, L] between two different nodes — so no record is invisible to the two position-wise
+   theorems above (a record covers at least its own left end point) *)
+Theorem records_wellformed :
+  forall (c : case) (out : list record), 0 <= cL c -> ibd_records c = Ok out -> Forall (rec_wf (cL c)) out.
+Proof. exact records_wellformed_lemma. Qed.
